@@ -95,6 +95,12 @@ class Protocol(Component):
             self.__send(packet)
 
             if not getattr(event, 'node_without_result', False):
+                if hasattr(event, 'remote_finish'):
+                    # (an event object that is sent again: the result of
+                    # its previous round trip is not this one's)
+                    del event.remote_finish
+                    event.errors = False
+                    event.value = Value(event, self)
                 self.__events[id] = event
                 while not hasattr(self.__events[id], 'remote_finish'):
                     yield
